@@ -373,6 +373,7 @@ def queue_traces(ctx, wd, check_args, prefix, num, depth, with_modes=True):
     ctx.sample({'kind': 'queue-event-trace', 'trace': traces[0]['ev'][:16]})
     if mtraces:
         ctx.sample({'kind': 'use_wait_queue mode started from a queue event, listener on mode_m2_starting', 'trace': mtraces[0]['ev']})
+    tlc.finish_diagnosis(wd, 'QueueEventsTrace', 'Trace.cfg', all_traces, v)
     for i, info in sorted(v.rejected.items()):
         if info.get('line') is None:
             continue
@@ -416,6 +417,7 @@ def run(ctx):
                              invs=False, trace=True))
     v2 = tlc.validate_traces(wd2, 'EventBusTrace', 'Trace.cfg', tr2)
     ctx.add_trace_verdict('EventBusTrace(relay/boolean schedules)', v2, len(tr2))
+    tlc.finish_diagnosis(wd2, 'EventBusTrace', 'Trace.cfg', tr2, v2)
     for i, info in sorted(v2.rejected.items()):
         if info.get('line') is None:
             continue
